@@ -181,7 +181,7 @@ package bal_slb
 //@   loop 1 invariant[addresses_so_far_are_keys] forall i int :: 0 <= i && i <= rangeindex ==> has(retVal, addrKey(*conf[i].Addr, *conf[i].Port))
 
 //@ func (*BalanceRR).Update
-//@   props C09
+//@   props C09,C02
 //@   nopanic nil,index,close
 //@   requires brr != nil && liveList(brr.backends)
 //@   requires[the_listed_backends_exist] forall k int :: 0 <= k && k < len(brr.backends) ==> brr.backends[k] != nil && brr.backends[k].backend != nil && brr.backends[k].backend.closeChan != nil
@@ -195,14 +195,16 @@ package bal_slb
 //@   ensures[every_old_backend_is_kept_or_released] forall i int :: 0 <= i && i < N ==> closed(old(brr.backends[i].backend.closeChan)) || (exists j int :: 0 <= j && j < len(brr.backends) && brr.backends[j] == old(brr.backends[i]))
 //@   ensures[every_new_backend_is_an_old_one_or_fresh] forall j int :: 0 <= j && j < len(brr.backends) ==> !allocated(brr.backends[j]) || (exists i int :: 0 <= i && i < N && brr.backends[j] == old(brr.backends[i]))
 //@   ensures[every_configured_address_is_selectable_afterwards] forall i int :: 0 <= i && i < len(conf) ==> (exists j int :: 0 <= j && j < len(brr.backends) && brr.backends[j].backend.AddrInfo == addrKey(*conf[i].Addr, *conf[i].Port))
+//@   ensures[the_rebuilt_list_is_marked_unsorted_and_the_cursor_reset] !brr.sorted && brr.next == 0
 //@   ensures[existing_backends_keep_availability_and_counters] forall b *backend.BfeBackend :: allocated(b) ==> b.avail == old(b.avail) && b.connNum == old(b.connNum) && b.failNum == old(b.failNum) && b.succNum == old(b.succNum)
+//@   assert[the_kept_backend_is_the_last_entry_of_the_new_list] at "delete(confMap, backendKey)" :: len(backendsNew) >= 1 && backendsNew[len(backendsNew)-1] == backendRR && backendsNew[len(backendsNew)-1] == old(brr.backends[index]) && backendsNew[len(backendsNew)-1].backend.AddrInfo == backendKey
 //@   loop 1 invariant[cursor] 0 <= index && index <= N && brr != nil
 //@   loop 1 invariant[the_old_list_is_untouched] sameslice(brr.backends, OLD) && (forall k int :: 0 <= k && k < N ==> brr.backends[k] == old(brr.backends[k]) && brr.backends[k] != nil && brr.backends[k].backend == old(brr.backends[k].backend) && brr.backends[k].backend != nil && brr.backends[k].backend.closeChan == old(brr.backends[k].backend.closeChan))
 //@   loop 1 invariant[the_old_list_is_duplicate_free] forall j int :: forall k int :: 0 <= j && j < k && k < N ==> brr.backends[j] != brr.backends[k] && brr.backends[j].backend != brr.backends[k].backend && brr.backends[j].backend.closeChan != brr.backends[k].backend.closeChan
 //@   loop 1 invariant[unprocessed_backends_are_live] forall k int :: index <= k && k < N ==> liveRR(brr.backends[k])
 //@   loop 1 invariant[the_new_list_is_a_fresh_array] cap(backendsNew) == 0 || !allocated(backendsNew)
 //@   loop 1 invariant[kept_backends_are_processed_old_ones_and_live] forall j int :: 0 <= j && j < len(backendsNew) ==> liveRR(backendsNew[j]) && (exists i int :: 0 <= i && i < index && backendsNew[j] == old(brr.backends[i]))
-//@   loop 1 invariant[processed_backends_are_kept_or_released] forall i int :: 0 <= i && i < index ==> closed(old(brr.backends[i].backend.closeChan)) || (exists j int :: 0 <= j && j < len(backendsNew) && backendsNew[j] == old(brr.backends[i]))
+//@   loop 1 invariant[processed_backends_are_kept_or_released] forall i int :: {brr.backends[i]} 0 <= i && i < index ==> closed(old(brr.backends[i].backend.closeChan)) || (exists j int :: 0 <= j && j < len(backendsNew) && backendsNew[j] == old(brr.backends[i]))
 //@   loop 1 invariant[the_old_backends_existed_at_entry] forall k int :: 0 <= k && k < N ==> allocated(brr.backends[k]) && allocated(brr.backends[k].backend) && allocated(brr.backends[k].backend.closeChan)
 //@   loop 1 invariant[kept_backends_are_distinct] forall j int :: forall k int :: 0 <= j && j < k && k < len(backendsNew) ==> backendsNew[j] != backendsNew[k]
 //@   loop 1 invariant[config_entries_are_well_formed] confMap != nil && (forall k string :: has(confMap, k) ==> wfBackendConf(confMap[k]))
